@@ -238,3 +238,83 @@ Theorem cached_driver_bs_independent : forall dated bs1 bs2 (f : file) ops1 ops2
 Proof. exact CachesRunProofs.cached_driver_bs_independent. Qed.
 Print Assumptions cached_driver_bs_independent.
 (* ---- end of WP-A block ---- *)
+
+(* ====================================================================================== *)
+(* WP-G (2): the `--blocksz` argument — "every permitted block size" is the property's quantifier.
+   cli_process_blocksz (Model/BlockszArg.v; prefix table, bounds and code shape regenerated from the source)
+   accepts exactly the arguments that denote a value in [max(BLOCKSZ_MIN, SyslogProcessor::BLOCKSZ_MIN), BLOCKSZ_MAX]
+   and returns the denoted value; malformed and out-of-range arguments are rejected. *)
+From S4.Model Require Import BlockszArg.
+From S4.Proofs Require Import BlockszArgProofs.
+
+Theorem blocksz_parse_correct : forall s v,
+  process_blocksz s = Some v <-> denotes s v /\ blocksz_lo <= v /\ v <= blocksz_max.
+Proof. exact BlockszArgProofs.blocksz_parse_correct. Qed.
+Print Assumptions blocksz_parse_correct.
+
+Theorem blocksz_malformed_rejected : forall s, (forall v, ~ denotes s v) -> process_blocksz s = None.
+Proof. exact BlockszArgProofs.blocksz_malformed_rejected. Qed.
+Print Assumptions blocksz_malformed_rejected.
+
+Theorem blocksz_out_of_range_rejected : forall s,
+  (forall v, denotes s v -> v < blocksz_lo \/ blocksz_max < v) -> process_blocksz s = None.
+Proof. exact BlockszArgProofs.blocksz_out_of_range_rejected. Qed.
+Print Assumptions blocksz_out_of_range_rejected.
+
+(* u64::from_str_radix: Some v iff the string is an optional '+' and >= 1 digits of the radix whose value fits u64 *)
+Theorem blocksz_from_str_radix_spec : forall radix s v, 0 < radix ->
+  (from_str_radix radix s = Some v <-> numeral radix s v /\ v <= u64_max).
+Proof. exact BlockszArgProofs.from_str_radix_spec. Qed.
+Print Assumptions blocksz_from_str_radix_spec.
+(* ---- end of WP-G block (2) ---- *)
+
+(* ====================================================================================== *)
+(* WP-G (3): the two oracle hypotheses of ezcheck_sound DISCHARGED from the regenerated regex ASTs
+   (Gen/RegexTables.v + Model/Regex.v + Proofs/RegexProofs.v of C04, read-only here) *)
+From S4.Model Require Import Regex.
+From S4.Gen Require Import RegexTables.
+From S4.Proofs Require Import RegexProofs EzcheckRegex EzcheckRegexDt.
+
+(* the syntactic predicates are sound for EVERY regex of the AST: whatever the declarative relation M relates
+   consumed a word with the stated content *)
+Theorem ezcheck_regex_predicates_sound : forall r s s', M r s s' ->
+  exists w, c_rem s = w ++ c_rem s' /\
+    (must12 r = true -> D12 w) /\ (mustd2 r = true -> D2 w) /\ (firstd r = true -> Fd w) /\ (lastd r = true -> Ld w).
+Proof. exact EzcheckRegex.sem. Qed.
+Print Assumptions ezcheck_regex_predicates_sound.
+
+(* table obligation on the regenerated rows: ALL rows with a four-digit year have must12, ALL rows with has_d2 have
+   mustd2, rows are indexed in order (no row is left to per-match validation) *)
+Theorem ezcheck_rows_discharged : rows_discharged_b = true.
+Proof. exact EzcheckRegex.rows_discharged_ok. Qed.
+Print Assumptions ezcheck_rows_discharged.
+
+(* EZCHECK soundness with the regex model as the matcher and ANY conversion of the match: no oracle hypothesis *)
+Theorem ezcheck_sound_regex : forall post c line,
+  parse_ez (match_slice_rx post) C12.info_tab c line =
+  parse_plain (dated_by_row_of (match_slice_rx post) C12.info_tab) c line.
+Proof. exact EzcheckRegex.ezcheck_sound_regex. Qed.
+Print Assumptions ezcheck_sound_regex.
+
+Theorem gate_as_coded_regex_accept_spec : forall post bs (f : file),
+  sp_blocksz_min <= bs -> bs <= blocksz_max ->
+  in_classes (dated_by_row_of (match_slice_rx post) C12.info_tab) C12.rows_tab bs f = false ->
+  accepted (gate_ez (match_slice_rx post) C12.info_tab C12.rows_tab bs f) =
+  spec_accept (dated_by_row_of (match_slice_rx post) C12.info_tab) C12.rows_tab f.
+Proof. exact EzcheckRegex.gate_as_coded_regex_accept_spec. Qed.
+Print Assumptions gate_as_coded_regex_accept_spec.
+
+(* dated_model of Model/RegexDt.v is that oracle (conversion step = normalise + chrono parse on the slice) *)
+Theorem ezcheck_dated_model_is_oracle : forall mt tzt yo off r row drow (line : Bytes.bytes),
+  nth_error rx_table (N.to_nat r) = Some row -> nth_error DatetimeTables.dt_table (N.to_nat r) = Some drow ->
+  option_map (fun x => fst (fst x)) (RegexDt.dated_model mt tzt row (Normalise.r_dtfs drow) line yo off) =
+  dated_by_row_of (match_slice_rx (post_dm mt tzt yo off)) C12.info_tab r line.
+Proof. exact EzcheckRegexDt.dated_model_is_oracle. Qed.
+Print Assumptions ezcheck_dated_model_is_oracle.
+
+Theorem ezcheck_sound_dated_model : forall mt tzt yo off c line,
+  parse_ez (match_slice_rx (post_dm mt tzt yo off)) C12.info_tab c line =
+  parse_plain (dated_by_row_of (match_slice_rx (post_dm mt tzt yo off)) C12.info_tab) c line.
+Proof. exact EzcheckRegexDt.ezcheck_sound_dated_model. Qed.
+Print Assumptions ezcheck_sound_dated_model.
+(* ---- end of WP-G block (3) ---- *)
